@@ -1,7 +1,8 @@
 (* C09 — non-vacuity: concrete instances of the hypotheses of Property.v, and sanity runs. *)
-From Coq Require Import ZArith List Bool QArith Lqa Lia.
+From Coq Require Import ZArith List Bool QArith Qround Lqa Lia.
 Import ListNotations.
 From GV Require Import Common.Wire C08.Model C09.Model C09.Lemmas.
+From GV Require gen.Gen_catroi.
 Open Scope Q_scope.
 
 (* from_range: ceil on both bounds, clamps at 0; an integer lower bound is included (boundary), an integer upper bound is not *)
@@ -74,3 +75,19 @@ Example wire_run :
                  T 0 [T 0 [T 1 [leaf 1]; T 2 [T 0 [leaf 1; leaf 1]]]; T 0 [T 1 [leaf 0]; T 2 [T 0 [leaf 1; leaf 1]]]; T 0 [T 1 [leaf 1]; T 0 []]]])
   = T 0 [T 5 [leaf 0; T 0 [leaf 1; T 0 [T 0 [leaf (-1); leaf 3]; T 0 [leaf 4; leaf 3]]]]; T 0 [leaf 1; leaf 0; leaf 0]; T 0 [leaf 1; leaf 0; leaf 0]; T 0 [leaf 0; leaf 0; leaf 0]].
 Proof. vm_compute. reflexivity. Qed.
+
+(* display jitter: category 2 drawn at 2 - 2/5 and category 1 drawn at 1 + 2/5, range (3/2, 7/2) over 5 categories: the index decides *)
+Example jitter_example :
+  mask_j (roi_to_state (R2 (Range true (3 # 2) (7 # 2)) []) (KCat 5) KNum)
+         [(JCode 2 (- (2 # 5)), JVal 0); (JCode 1 (2 # 5), JVal 0)] = [true; false].
+Proof. vm_compute. reflexivity. Qed.
+(* a lookup by the truncated displayed coordinate would take the first element for category 1; the nearest integer gives 2 *)
+Example truncation_differs : Qfloor (inject_Z 2 + - (2 # 5)) = 1%Z /\ nearest (inject_Z 2 + - (2 # 5)) = 2%Z.
+Proof. vm_compute. split; reflexivity. Qed.
+(* the translated functions on concrete input: categories (c, a, b) = ranks (2, 0, 1), range (1/2, 5/2) keeps positions 1, 2 = labels a, b *)
+Example translated_example :
+  Gen_catroi.from_range_stored [2; 0; 1]%Z (1 # 2) (5 # 2) = [0; 1]%Z /\
+  Gen_catroi.contains (Some [0; 1]%Z) 1%Z = true /\ Gen_catroi.contains (Some [0; 1]%Z) 2%Z = false /\
+  Gen_catroi.dispatch CRectangular true false true false true = LAndOfRanges /\
+  Gen_catroi.dispatch CRectangular true false true false false = LMultiRange true.
+Proof. vm_compute. repeat split; reflexivity. Qed.
